@@ -508,6 +508,31 @@ def cancellation_rule(repo, rep, funcs):
                          expected='cos(alpha)**2 from the angle itself, or a guard for the equatorial line', actual=txt)
 
 
+
+def truncation_rule(repo, rep, key_prefix, what):
+    """int(<expression>) met during the concrete evaluations of this property whose value in IEEE double arithmetic truncates differently from
+    the exact value (the quotient is a whole number only in exact arithmetic: 0.99999999996 -> 0).  One instance; call after the evaluations."""
+    from ..symval import TRUNC_EVENTS
+    seen = set()
+    bad = []
+    for fn, node, exact, dbl, consts in TRUNC_EVENTS:
+        if fn is None:
+            continue
+        txt = stmt_text(node)[:80]
+        if (fn.qualname, txt) in seen:
+            continue
+        seen.add((fn.qualname, txt))
+        bad.append((fn, node, txt, exact, dbl, consts))
+    key = key_prefix + '::int-of-inexact'
+    if not bad:
+        rep.holds('R-TRUNC', key, '%s:1' % key_prefix.split('::')[1] if '::' in key_prefix else key_prefix, 'no int() met in %s truncates differently in double arithmetic than in exact arithmetic' % what)
+    for fn, node, txt, exact, dbl, consts in bad[:4]:
+        rep.violated('R-TRUNC', key + '::' + fn.qualname, where(fn, node), '`%s` truncates a value that is the whole number %s only in exact arithmetic: in double arithmetic it is %.17g and '
+                     'int() gives %d (%s)' % (txt, exact, dbl, int(dbl), ', '.join('%s=%s' % (k, float(v.as_fraction()) if v.as_fraction().denominator != 1 else int(v.as_fraction()))
+                                                                             for k, v in sorted(consts.items())[:5])),
+                     expected='round() to the nearest whole number, or integer arithmetic', actual=txt)
+
+
 def tm_division_rules(repo, rep):
     """division rule for the projection routines (geo2grid, grid2geo, psfandgridconv) over the band of the projection, equator and central
     meridian included"""
@@ -532,6 +557,17 @@ def tm_division_rules(repo, rep):
                    'prj.initialcm': (-177.0, -170.0)},
                   families=(('lon', 'cm'),))
 
+
+def _strip_ok(prjname, lon, z, cm):
+    """automatic zone: any strip whose central meridian is within half a strip width of the longitude (on a boundary both neighbours are)"""
+    from fractions import Fraction as F
+    if z is None or cm is None or z.denominator != 1:
+        return False
+    z = int(z)
+    if prjname == 'utm':
+        return 1 <= z <= 60 and cm == -183 + 6 * z and abs(lon - cm) <= 3
+    a, sub = divmod(z, 10)
+    return sub in (1, 2, 3) and 1 <= a <= 60 and cm == (a - 1) * 6 - 180 + 2 * sub - 1 and abs(lon - cm) <= 1
 
 def zone_table_rule(repo, rep):
     """zone number and central meridian of geo2grid on a lattice of concrete longitudes and zone arguments, for UTM and ISG - independent of
@@ -590,7 +626,7 @@ def zone_table_rule(repo, rep):
         w = where(f, f.node)
         if z is None or cm is None:
             rep.undecided('R-TABLE', key, w, 'zone / central meridian do not fold to numbers for these constant arguments')
-        elif z == zwant and cm == cmwant:
+        elif (z == zwant and cm == cmwant) or (zarg == 0 and _strip_ok(prjname, lon, z, cm)):
             rep.holds('R-TABLE', key, w, '%s: longitude %s, zone argument %s -> zone %s, central meridian %s' % (prjname, float(lon), zarg, z, cm))
         else:
             rep.violated('R-TABLE', key, w, 'geo2grid(lat, %s, zone=%s, prj=%s) uses zone %s with central meridian %s; the %s the longitude lies in is zone %s with central meridian %s' % (
